@@ -201,3 +201,8 @@ Fixpoint count_nonfinite (pl : plan) (steps : list (Z * eqn)) (d : data) : nat :
   end.
 
 End SequentialModel.
+
+Arguments e_lhs {A} _.
+Arguments e_tr {A} _.
+Arguments e_rhs {A} _.
+Arguments e_res {A} _.
